@@ -250,8 +250,7 @@ def part_fuzz(rep):
         st[o["res"]["status"]] = st.get(o["res"]["status"], 0) + 1
     rep.bounds["fuzz"] = {"forms": n, "outcomes": st}
     rep.extra.setdefault("trace_runs", []).append({"source": "vocabulary fuzz (never-crash clause only)", "traces": len(outs), "accepted": len(acc), "wall_s": round(info["wall"], 1)})
-    if st.get("ok", 0) < n * 0.03 or st.get("pyxform_error", 0) < n * 0.3:
-        raise tlc.MachineryError(f"fuzz profile degenerate: {st}")
+    degenerate = st.get("ok", 0) < n * 0.03 or st.get("pyxform_error", 0) < n * 0.3
     for i, o in enumerate(outs):
         rep.case({"fuzz": [o["seed"], o["idx"], o["fmt"]]})
         if i in acc:
@@ -260,3 +259,6 @@ def part_fuzz(rep):
         sig = f"{PROP}:crash:{res.get('errclass')}@{res.get('frame')}" if res["status"] == "crash" else f"{PROP}:fuzz:{res['status']}"
         rep.violation(sig, f"fuzz form seed={o['seed']} idx={o['idx']} fmt={o['fmt']}: {res['status']} {res.get('errclass')}: {str(res.get('message'))[:200]} at {res.get('frame')}",
                       {"fuzz": True, "seed": o["seed"], "idx": o["idx"], "fmt": o["fmt"], "wb": o["wb"], "status": res["status"], "message": res.get("message")})
+    if degenerate and not rep.violations:      # (with violations recorded, they are the verdict)
+        raise tlc.MachineryError(f"fuzz profile degenerate: {st}")
+
